@@ -65,3 +65,7 @@ for k, v in lcd.items():
             break
 print("RESULT " + json.dumps({"timed_out": bool(kg.timed_out), "n_lcd": len(lcd), "unsound": unsound,
                               "children_alive": children, "elapsed": round(elapsed, 2), "klen": len(kernel)}))
+sys.stdout.flush()
+# do not let multiprocessing's exit handler wait for workers a broken tree left running: the caller
+# kills this process group
+os._exit(0)
